@@ -1,8 +1,11 @@
 import PP.Driver.Codec
 import PP.Model.Values
 import PP.Model.Config
+import PP.Model.Std
 namespace PP
 open Sexp Pr
+
+def optNat' (i : Int) : Option Nat := if i < 0 then none else some i.toNat
 
 def decodeCls : Sexp → Option (Option QualName)
   | .atom "none" => some none
@@ -29,6 +32,24 @@ partial def decodeVal : Sexp → Option PyVal
   | .list (.atom "dict" :: cls :: kvs) => do some (.dict (← decodeCls cls) (← decodeKVs kvs))
   | .list [.atom "call", f, .list args, .list kws] => do some (.call (← decodeQual f) (← decodeVals args) (← decodeKws kws))
   | .list (.atom "opaque" :: cs) => do some (.opaque (← nats? cs))
+  | .list [.atom "td", d, sec, us] => do some (.timedelta (← int? d) (← int? sec) (← int? us))
+  | .list (.atom "ident" :: parts) => do
+    some (.ident (← parts.mapM fun | .list (t :: cs) => do some (← nat? t, ← nats? cs) | _ => none))
+  | .list [.atom "path", cls, .list cs] => do some (.path (← decodeQual cls) (← pcharsOf cs))
+  | .list [.atom "dt", y, mo, d, h, mi, sec, us, tz, fold] => do
+    let tz ← match tz with | .atom "none" => some none | t => (decodeVal t).map some
+    some (Std.showDatetime (← nat? y) (← nat? mo) (← nat? d) (← nat? h) (← nat? mi) (← nat? sec) (← nat? us) tz (← nat? fold))
+  | .list [.atom "tm", h, mi, sec, us, tz, fold] => do
+    let tz ← match tz with | .atom "none" => some none | t => (decodeVal t).map some
+    some (Std.showTime (← nat? h) (← nat? mi) (← nat? sec) (← nat? us) tz (← nat? fold))
+  | .list [.atom "date", y, mo, d] => do some (Std.showDate (← nat? y) (← nat? mo) (← nat? d))
+  | .list [.atom "tz", isUtc, off, name] => do
+    let name ← match name with | .atom "none" => some none | .list cs => (pcharsOf cs).map some | _ => none
+    some (Std.showTimezone ((← nat? isUtc) == 1) (← decodeVal off) name)
+  | .list [.atom "deque", cls, .list xs, ml] => do
+    some (Std.showDeque (← decodeQual cls) (← decodeVals xs) (optNat' (← int? ml)))
+  | .list (.atom "chainmap" :: cls :: fe :: maps) => do
+    some (Std.showChainMap (← decodeQual cls) (← decodeVals maps) ((← nat? fe) == 1))
   | .list [.atom "cmt", v, .list cs] => do some (.commented (← decodeVal v) (← pcharsOf cs))
   | .list [.atom "trl", v, .list cs] => do some (.trailing (← decodeVal v) (← pcharsOf cs))
   | _ => none
